@@ -70,6 +70,10 @@ class SimExecutor:
         self.owner.ip("shutdown")
         self.shut = True
         self.owner.emit("shutdown")
+        if cancel_futures:
+            # as ThreadPoolExecutor does: work that no thread has picked up yet is cancelled (its callbacks run)
+            for j in list(self.queued()):
+                self.cancel(j.c, "shutdown")
 
     # --- environment steps ------------------------------------------------------------------
     def queued(self):
@@ -130,10 +134,10 @@ class SimExecutor:
         j.state = "finished"
         self.owner.emit("finish", c)
 
-    def cancel(self, c):
+    def cancel(self, c, why=""):
         j = self.job(c, ("queued",))
         j.state = "cancelled"
-        self.owner.emit("cancel", c)        # the job is out of the executor; callbacks run next
+        self.owner.emit("cancel", c, why)   # the job is out of the executor; callbacks run next
         j.fut.cancel()
 
 
